@@ -355,7 +355,7 @@ func mentions(n ast.Node, name string) bool {
 	return found
 }
 
-func timerCfg(repo string) (perArm, stopCloses, recheck bool) {
+func timerCfg(repo string) (perArm, stopCloses, recheck, capture bool) {
 	f := parse(repo, "ship/handshake.go")
 	arm := funcDecl(f, "setHandshakeTimer")
 	stop := funcDecl(f, "stopHandshakeTimer")
@@ -364,6 +364,41 @@ func timerCfg(repo string) (perArm, stopCloses, recheck bool) {
 	}
 	// a fresh channel per armed timer, stored in the connection
 	perArm = containsCall(arm.Body, "make") && mentions(arm.Body, "handshakeTimerStopChan")
+	// the timer goroutine mentions the connection's channel field only after its timer expired (the re-check):
+	// what it selects on is the channel made when it was armed
+	capture = true
+	ast.Inspect(arm.Body, func(x ast.Node) bool {
+		gs, ok := x.(*ast.GoStmt)
+		if !ok {
+			return true
+		}
+		lit, ok := gs.Call.Fun.(*ast.FuncLit)
+		if !ok {
+			capture = false
+			return false
+		}
+		inBody := map[ast.Node]bool{}
+		ast.Inspect(lit.Body, func(y ast.Node) bool {
+			if cc, ok := y.(*ast.CommClause); ok {
+				for _, st := range cc.Body {
+					ast.Inspect(st, func(z ast.Node) bool {
+						if z != nil {
+							inBody[z] = true
+						}
+						return true
+					})
+				}
+			}
+			return true
+		})
+		ast.Inspect(lit.Body, func(y ast.Node) bool {
+			if se, ok := y.(*ast.SelectorExpr); ok && se.Sel.Name == "handshakeTimerStopChan" && !inBody[se] {
+				capture = false
+			}
+			return true
+		})
+		return false
+	})
 	// stop closes the channel and does not send on it
 	hasSend := false
 	ast.Inspect(stop.Body, func(x ast.Node) bool {
@@ -708,8 +743,8 @@ func main() {
 	w("]\n\n")
 	flush("MiscFacts.lean")
 	{
-		a, b, c := timerCfg(*repo)
-		files["TimerFacts.lean"] = fmt.Sprintf("/- GENERATED by /verif/extract from /repo — do not edit. -/\nimport ShipVerif.Model.Timer\nnamespace ShipVerif.Generated\n\n/-- ship/handshake.go setHandshakeTimer / stopHandshakeTimer: design facts -/\ndef timerCfg : ShipVerif.Timer.Cfg := { perArmChannel := %v, stopCloses := %v, recheck := %v }\n\nend ShipVerif.Generated\n", a, b, c)
+		a, b, c, d := timerCfg(*repo)
+		files["TimerFacts.lean"] = fmt.Sprintf("/- GENERATED by /verif/extract from /repo — do not edit. -/\nimport ShipVerif.Model.Timer\nnamespace ShipVerif.Generated\n\n/-- ship/handshake.go setHandshakeTimer / stopHandshakeTimer: design facts -/\ndef timerCfg : ShipVerif.Timer.Cfg := { perArmChannel := %v, stopCloses := %v, recheck := %v, captureAtArm := %v }\n\nend ShipVerif.Generated\n", a, b, c, d)
 	}
 	{
 		a, b, c, d, e := wsCfg(*repo)
